@@ -28,11 +28,11 @@ UNCHANGED, CHANGED, RESTORED = 'unchanged', 'changed', 'restored'
 
 
 def run(ctx):
-    rule_restore_all_exits(ctx, 'C20.R1')
-    rule_saved_level_none(ctx, 'C20.R2')
-    rule_non_interference(ctx, 'C20.R3')
-    rule_transparent_decorators(ctx, 'C20.R4')
-    rule_accessors(ctx, 'C20.R5')
+    ctx.rule(rule_restore_all_exits, 'C20.R1')
+    ctx.rule(rule_saved_level_none, 'C20.R2')
+    ctx.rule(rule_non_interference, 'C20.R3')
+    ctx.rule(rule_transparent_decorators, 'C20.R4')
+    ctx.rule(rule_accessors, 'C20.R5')
 
 
 # ----------------------------------------------------------------------------------------------
@@ -207,6 +207,15 @@ class LevelWalk:
             res.extend(self._walk_keep(s.body, state, assume))
             return [(('fall' if o in ('fall',) else o), st, asm, note) for o, st, asm, note in res]
         if isinstance(s, ast.With):
+            for item in s.items:
+                call = item.context_expr
+                if isinstance(call, ast.Call):
+                    ca = self.P.resolve_callee(self.fi.module, self.fi, call.func)
+                    g = ca.func if ca is not None and ca.kind == 'repo' else None
+                    if g is not None and any('contextmanager' in unparse(d) for d in g.node.decorator_list):
+                        r = self._with_contextmanager(g, s, state, assume)
+                        if r is not None:
+                            return r
             return self._walk_keep(s.body, state, assume)
         if isinstance(s, ast.Return):
             kind, may_raise = self.classify(s)
@@ -234,6 +243,72 @@ class LevelWalk:
                 state = RESTORED
         res.append(('fall', state, assume, None))
         return res
+
+
+def _cm_split(g):
+    """(statements before the yield, [try-part before, try-part after, finalbody] or None, statements after) of a
+    generator-based context manager with one yield at the top level of its body or of one try/finally."""
+    body = g.node.body
+    for i, st in enumerate(body):
+        if isinstance(st, ast.Expr) and isinstance(st.value, ast.Yield):
+            return body[:i], None, body[i + 1:]
+        if isinstance(st, ast.Try) and not st.handlers:
+            for j, t in enumerate(st.body):
+                if isinstance(t, ast.Expr) and isinstance(t.value, ast.Yield):
+                    return body[:i], [st.body[:j], st.body[j + 1:], st.finalbody], body[i + 1:]
+    return None
+
+
+def _with_contextmanager(self, g, s, state, assume):
+    """`with cm(...): BODY` for a generator context manager: code before the yield, BODY, then the code after the
+    yield - which only runs when BODY completes (falls through or returns), unless it sits in a finally block."""
+    sp = _cm_split(g)
+    if sp is None:
+        return None
+    pre, tr, post = sp
+    saved0 = set(self.saved)
+    self.saved |= _saved_vars(self.P, g)
+    fi0 = self.fi
+    outs = []
+
+    def helper(stmts, st, asm):
+        self.fi = g
+        try:
+            return self._walk_keep(stmts, st, asm)
+        finally:
+            self.fi = fi0
+
+    def seq(stages, st, asm):
+        # stages: list of (statements, in helper?, runs on which incoming outcomes)
+        cur = [('fall', st, asm, None)]
+        for stmts, in_helper, on in stages:
+            nxt = []
+            for o, st1, asm1, note in cur:
+                if o not in on:
+                    nxt.append((o, st1, asm1, note))
+                    continue
+                walker = helper if in_helper else (lambda a, b, c: self._walk_keep(a, b, c))
+                for o2, st2, asm2, note2 in walker(stmts, st1, asm1):
+                    if o2 == 'fall':
+                        nxt.append((o, st2, asm2, note))          # keep the pending outcome (return / raise)
+                    else:
+                        nxt.append((o2, st2, asm2, note2))
+            cur = nxt
+        return cur
+    try:
+        if tr is None:
+            stages = [(pre, True, ('fall',)), (s.body, False, ('fall',)), (post, True, ('fall', 'return'))]
+        else:
+            stages = [(pre, True, ('fall',)), (tr[0], True, ('fall',)), (s.body, False, ('fall',)),
+                      (tr[1], True, ('fall', 'return')), (tr[2], True, ('fall', 'return', 'raise')),
+                      (post, True, ('fall', 'return'))]
+        outs = seq(stages, state, assume)
+    finally:
+        self.saved = saved0
+    return outs
+
+
+LevelWalk._with_contextmanager = _with_contextmanager
 
 
 def _saved_vars(P, fi):
@@ -266,6 +341,25 @@ def rule_restore_all_exits(ctx, rid):
                             changed = True
     w = LevelWalk(P, fi, saved)
     acquires = [s for s in ast.walk(fi.node) if isinstance(s, (ast.Expr, ast.Assign)) and w.classify(s)[0] == 'acquire']
+    # the change may sit in a generator context manager used by the wrapper (`with _temporary_level(lvl): ...`)
+    helpers = []
+    for n in walk_local(fi.node):
+        if isinstance(n, ast.With):
+            for item in n.items:
+                if isinstance(item.context_expr, ast.Call):
+                    ca = P.resolve_callee(fi.module, fi, item.context_expr.func)
+                    if ca.kind == 'repo' and ca.func is not None and any('contextmanager' in unparse(d)
+                                                                          for d in ca.func.node.decorator_list):
+                        helpers.append(ca.func)
+    save_funcs = [fi]
+    for g in helpers:
+        wg = LevelWalk(P, g, saved | _saved_vars(P, g))
+        acq_g = [s for s in ast.walk(g.node) if isinstance(s, (ast.Expr, ast.Assign)) and wg.classify(s)[0] == 'acquire']
+        if acq_g:
+            acquires += acq_g
+            saved |= _saved_vars(P, g)
+            save_funcs.append(g)
+    w.saved = saved
     if not acquires:
         raise AnalysisError('%s: no temporary level change found (anchor vanished)' % fi.qualname)
     if not saved:
@@ -289,8 +383,9 @@ def rule_restore_all_exits(ctx, rid):
             ctx.passed(rid, fi, c, '%d outcome classes' % len(total), node=acquires[0])
     # the save must precede the change
     first_acq = min(a.lineno for a in acquires)
-    save_lines = [n.lineno for n in walk_local(fi.node) if isinstance(n, ast.Assign) and isinstance(n.value, ast.Call)
-                  and P.resolve_callee(fi.module, fi, n.value.func).dotted == 'emd.logger.get_level']
+    save_lines = [n.lineno for f_ in save_funcs for n in walk_local(f_.node)
+                  if isinstance(n, ast.Assign) and isinstance(n.value, ast.Call)
+                  and P.resolve_callee(f_.module, f_, n.value.func).dotted == 'emd.logger.get_level']
     if not save_lines or min(save_lines) > first_acq:
         ctx.violation(rid, fi, 'previous level is saved before the change',
                       'get_level() is read after the temporary level was set', node=acquires[0])
@@ -367,6 +462,28 @@ PURE_FUNCS = {'format', 'shape', 'sum', 'max', 'min', 'mean', 'astype', 'round',
               'getpid', 'bool', 'repr', 'join', 'tolist', 'item', 'size', 'ndim'}
 
 
+def _only_safe_logging(stmts):
+    """Statements that can run or not run without any observable difference: logger calls whose arguments are
+    formats of plain names / constants (no indexing, no attribute chains into data, no calls beyond str.format)."""
+    for st in stmts:
+        if isinstance(st, ast.Pass):
+            continue
+        if not (isinstance(st, ast.Expr) and isinstance(st.value, ast.Call) and isinstance(st.value.func, ast.Attribute)
+                and st.value.func.attr in ('debug', 'info', 'warning', 'error', 'verbose', 'critical', 'log')
+                and 'logger' in unparse(st.value.func.value)):
+            return False
+        for a in ast.walk(st.value):
+            if a is st.value:
+                continue
+            if isinstance(a, (ast.Subscript, ast.Starred, ast.NamedExpr, ast.Await)):
+                return False
+            if isinstance(a, ast.Call) and not (isinstance(a.func, ast.Attribute) and a.func.attr == 'format'):
+                return False
+            if isinstance(a, ast.Attribute) and not (a.attr == 'format' or isinstance(a.value, ast.Name)):
+                return False
+    return True
+
+
 def rule_non_interference(ctx, rid):
     P = ctx.P
     for mname in NUMERIC:
@@ -406,6 +523,10 @@ def rule_non_interference(ctx, rid):
                         and 'logger' not in fi.local_names():
                     if node.attr in ('disabled', 'level', 'handlers', 'isEnabledFor', 'getEffectiveLevel',
                                      'hasHandlers', 'manager', 'propagate'):
+                        st0 = _stmt_of(fi, node)
+                        if isinstance(st0, ast.If) and any(x is node for x in ast.walk(st0.test)) \
+                                and _only_safe_logging(st0.body) and _only_safe_logging(st0.orelse):
+                            continue        # `if logger.isEnabledFor(DEBUG): logger.debug(fmt.format(x))`
                         problems.append((node, fi, 'numeric code reads logger state `logger.%s`' % node.attr))
         c = 'module %s: logging is write-only (expression statements, pure arguments, no state reads)' % mname
         anyfi = next(iter(m.functions.values())) if m.functions else None
@@ -487,6 +608,39 @@ def rule_transparent_decorators(ctx, rid):
             ctx.violation(rid, fi, c, 'no normal return path')
         else:
             ctx.passed(rid, fi, c, '%d return paths' % nret)
+    # the logging decorator runs the same statements whatever the logger state: a branch on the logger's level /
+    # handlers (build a message only when DEBUG is enabled ...) makes exceptions in that branch depend on the state
+    sl = P.func('emd.logger.sift_logger.add_logger.sift_logger')
+    c = 'the logging decorator does not branch on the logger state'
+    STATE = ('isEnabledFor', 'getEffectiveLevel', 'hasHandlers')
+    STATE_ATTR = ('level', 'disabled', 'handlers', 'propagate')
+    hit = None
+    hits = []
+    for n in walk_local(sl.node):
+        tests = []
+        if isinstance(n, (ast.If, ast.While, ast.IfExp)):
+            tests.append(n.test)
+        elif isinstance(n, ast.Assert):
+            tests.append(n.test)
+        for t in tests:
+            for x in ast.walk(t):
+                if isinstance(x, ast.Call) and isinstance(x.func, ast.Attribute) and x.func.attr in STATE:
+                    hits.append((n, unparse(t)[:60]))
+                if isinstance(x, ast.Attribute) and x.attr in STATE_ATTR and 'logg' in unparse(x.value).lower():
+                    hits.append((n, unparse(t)[:60]))
+                if isinstance(x, ast.Call):
+                    ca = P.resolve_callee(sl.module, sl, x.func)
+                    if ca is not None and ca.dotted in ('emd.logger.get_level', 'emd.logger.is_active'):
+                        hits.append((n, unparse(t)[:60]))
+    for h in hits:
+        # guarded statements that are plain log calls are fine: nothing observable depends on the guard
+        if not (isinstance(h[0], ast.If) and _only_safe_logging(h[0].body) and _only_safe_logging(h[0].orelse)):
+            hit = h
+    if hit:
+        ctx.violation(rid, sl, c, 'the decorator tests `%s`: what it executes (and whether that can raise) depends on the '
+                      'logger state, so a call can fail with logging set up and succeed without' % hit[1], node=hit[0])
+    else:
+        ctx.passed(rid, sl, c)
     # informational
     sl = P.func('emd.logger.sift_logger.add_logger.sift_logger')
     for n in walk_local(sl.node):
